@@ -201,8 +201,15 @@ class MultiJobShopGraphEnv(gym.Env):
         self.reward_function_config = reward_function_config
         self.graph_updater_config = graph_updater_config
 
-        self.action_space = deepcopy(
-            self.single_job_shop_graph_env.action_space
+        # The sampled instance may not use every machine id (e.g. with
+        # recirculation), so the action space is defined by the generator's
+        # maximum sizes: (job_id, machine_id) with machine_id = -1 allowed.
+        self.action_space = gym.spaces.MultiDiscrete(
+            [
+                instance_generator.max_num_jobs,
+                instance_generator.max_num_machines + 1,
+            ],
+            start=[0, -1],
         )
         self.observation_space: gym.spaces.Dict = deepcopy(
             self.single_job_shop_graph_env.observation_space
